@@ -314,6 +314,10 @@ func TestConstructed(t *testing.T) {
 			kit.R.ClassN("spelling:near-miss-continuation-line", int64(nearMissCount))
 			nearMissCount = 0
 		}
+		if longTextCount > 0 {
+			kit.R.ClassN("spelling:link-text-over-1000-bytes", int64(longTextCount))
+			longTextCount = 0
+		}
 		if labelNLCount > 0 {
 			kit.R.ClassN("spelling:label-over-two-lines", int64(labelNLCount))
 			labelNLCount = 0
